@@ -52,7 +52,17 @@ def handle (op : String) (a : Json) : R Json := do
   match op with
   | "compute" =>
       let cands ← strsF a "cands"
-      let cvrs ← (← arrF a "cvrs").mapM parseBallot
+      -- the ballot list the model runs on: either spelled out ("cvrs") or as weighted signatures
+      -- ("sigs": [[ballot, n], ...] = n consecutive copies of each ballot, in the order given; large contests)
+      let cvrs ← match fld? a "sigs" with
+        | some j => do
+            let l ← asArr j
+            let parts ← l.mapM fun p => do
+              match (← asArr p) with
+              | [b, n] => pure (List.replicate (← asNat n) (← parseBallot b))
+              | _ => throw "bad weighted signature"
+            pure parts.flatten
+        | none => (← arrF a "cvrs").mapM parseBallot
       let winner ← strF a "winner"
       let tot ← natF a "tot"
       let outcome ← strsF a "outcome"
